@@ -127,6 +127,9 @@ def call(e: Engine, n: ast.Call, st: State) -> SV:
     # logger.* calls are no-ops (assumed not to raise) -- DESIGN 1.1
     if kind == "attr" and tag[1] == ("builtin", "logger"):
         return none_sv()
+    if kind == "attr" and tag[1] == ("super",):
+        tag = ("bound", SV(Ty("func"), None, tag=("super",)), tag[2])
+        kind = "bound"
     if kind == "bound" and isinstance(tag[1], SV) and tag[1].ty.kind == "func" and tag[1].tag == ("super",):
         # super().method(...)
         cls = e.fn.cls
